@@ -42,7 +42,7 @@ def lineOfJson (j : Json) : Line :=
 def linesOf (j : Json) (k : String) : List Line := (arr j k).map lineOfJson
 
 def nodeOfJson (j : Json) : Node :=
-  if getBool j "dir" then .dir else .file (linesOf j "lines")
+  if getBool j "notdir" then .notdir else if getBool j "dir" then .dir else .file (linesOf j "lines")
 
 /-- `"files": {"path": node, …}` -/
 def fsOf (j : Json) : FS :=
